@@ -54,11 +54,11 @@ def check_state(im, bad, j, op):
     from cellmlmanip.rdf import create_rdf_node
     for p in range(2):
         for o in range(3):
-            subs = set(str(s_)[1:] for s_ in m.rdf.subjects(create_rdf_node((msm.PRED_NS, 'p%d' % p)),
+            subs = set(str(s_)[1:] for s_ in m.rdf.subjects(create_rdf_node(msm.pred(p)),
                                                            create_rdf_node((msm.OBJ_NS, 'o%d' % o))))
             want = [ids[c] for c in subs if c in ids]
             try:
-                got = m.get_variables_by_rdf((msm.PRED_NS, 'p%d' % p), (msm.OBJ_NS, 'o%d' % o))
+                got = m.get_variables_by_rdf(msm.pred(p), (msm.OBJ_NS, 'o%d' % o))
             except KeyError:
                 if all(c in ids for c in subs):
                     bad.append(('get_variables_by_rdf raises KeyError although every annotated id has a live carrier',
@@ -68,6 +68,21 @@ def check_state(im, bad, j, op):
                 bad.append(('get_variables_by_rdf returns %r although id(s) %r have no live carrier'
                             % ([v.name for v in got], sorted(c for c in subs if c not in ids)), {'op_index': j}))
                 continue
+            if p == 0:
+                # the same question through get_variable_by_ontology_term (predicate 0 is bqbiol:is)
+                try:
+                    one = m.get_variable_by_ontology_term((msm.OBJ_NS, 'o%d' % o))
+                    if len(want) != 1 or one is not want[0]:
+                        bad.append(('get_variable_by_ontology_term(o%d) returns %s (cmeta id %r), carriers are %r'
+                                    % (o, one.name, one.cmeta_id, [v.name for v in want]), {'op_index': j}))
+                except KeyError:
+                    if len(want) == 1:
+                        bad.append(('get_variable_by_ontology_term(o%d) raises KeyError although %s carries the annotated id'
+                                    % (o, want[0].name), {'op_index': j}))
+                except ValueError:
+                    if len(want) <= 1:
+                        bad.append(('get_variable_by_ontology_term(o%d) raises ValueError with %d carrier(s)' % (o, len(want)),
+                                    {'op_index': j}))
             if set(map(id, got)) != set(map(id, want)) or len(got) != len(want):
                 bad.append(('get_variables_by_rdf(p%d, o%d) returns %r, carriers are %r'
                             % (p, o, [v.name for v in got], [v.name for v in want]), {'op_index': j}))
@@ -172,7 +187,9 @@ def run(ctx):
     n = 150 if ctx.tier == 'quick' else 3000
     ctx.rule = ('random annotation-heavy API histories (add_variable with / without / clashing ids, add_cmeta_id, '
                 'transfer_cmeta_id, RDF triples, remove_variable, re-adding removed names, look-ups) over 4-7 variables; all 32 '
-                'two-connection documents with ids on source / target ends; non-trivial = at least 3 id-changing calls')
+                'two-connection documents with ids on source / target ends; histories of convert_variable calls with either '
+                'setting of move_annotations on generated models with annotated variables (look-ups by id, RDF and ontology '
+                'term before and after every conversion; oracle only); non-trivial = at least 3 id-changing calls')
     ctx.trusted += ['rdflib graph modelled as a set of (subject id, predicate, object) triples',
                     'calls that hand the model dead or foreign variables (F16) are excluded on both sides']
     cases = load_corpus() + [msm.gen_case(ctx.seed * 100000 + i, 'annot') for i in range(n)]
@@ -188,6 +205,8 @@ def run(ctx):
     msm.correspond(ctx, cases, [p for p, _ in results], 'C13')
     for c in cases[:2]:
         ctx.sample({'base': c['base'], 'ops': c['ops'][:12]})
+    from props import c08
+    c08.conversion_stratum(ctx, 'C13', 40 if ctx.tier == 'quick' else 600)
     docs = doc_cases()
     for dc, (bad, outcome) in zip(docs, vlib.pmap(run_doc, docs)):
         ctx.count(case_key=dc, kind='doc:' + outcome)
@@ -209,6 +228,12 @@ def load_corpus():
 
 
 def replay(ctx, case):
+    if 'conversion_case' in case:
+        import cvlib
+        bad = [b for b in cvlib.conversion_coherence(case['conversion_case']) if b[0] == 'C13']
+        for who, what, detail in bad:
+            ctx.violation(what, {'conversion_case': case['conversion_case'], 'detail': detail})
+        return bad[0][1] if bad else None
     if 'doc' in case:
         bad, _ = run_doc(case['doc'])
         return bad[0][0] if bad else None
